@@ -1109,3 +1109,69 @@ func c19cachedAnswersAreAuthorised(c *an.Ctx) {
 		}
 	}
 }
+
+func init() {
+	old := All["C19"].Run
+	All["C19"].Run = func(c *an.Ctx) {
+		old(c)
+		c19refusalIsNotSuccess(c)
+	}
+	All["C19"].Rules += " R15"
+	addLevel("C19", "a boolean authorisation helper of the HTTP layer never reports success after it has written an error status to the client.")
+}
+
+// c19refusalIsNotSuccess — C19.R15.  The helpers `checkAuth…(w, r, user) bool` answer the request
+// themselves when they refuse (403) and tell the caller by returning false.  A refusal that is
+// written but followed by `return true` lets the caller perform the action behind a 403.
+func c19refusalIsNotSuccess(c *an.Ctx) {
+	const H = "lib/util/lifted/influx/httpd"
+	r := c.Rule("C19.R15", "K-ORDER(never-after)", H+": in functions returning bool, no `return true` is reachable after an error status was written (httpError / respondError / WriteHeader ≥ 400)")
+	n := 0
+	for _, d := range c.P.AllDecls() {
+		if !an.InPkg(d, H) {
+			continue
+		}
+		sig := d.Obj.Type().(*types.Signature)
+		if sig.Results().Len() != 1 || !types.Identical(sig.Results().At(0).Type(), types.Typ[types.Bool]) {
+			continue
+		}
+		f := c.P.Fn(d)
+		if f == nil {
+			continue
+		}
+		refuse := f.Find(an.MNode("error status written", func(g *an.Fn, m ast.Node) bool {
+			ce, ok := m.(*ast.CallExpr)
+			if !ok {
+				return false
+			}
+			cal := an.Callee(g.Info, ce)
+			if cal == nil {
+				return false
+			}
+			switch cal.Name() {
+			case "httpError", "respondError":
+				return true
+			case "WriteHeader":
+				if len(ce.Args) == 1 {
+					if tv, ok := g.Info.Types[ce.Args[0]]; ok && tv.Value != nil {
+						if v, ok := constant.Int64Val(tv.Value); ok && v >= 400 {
+							return true
+						}
+					}
+				}
+			}
+			return false
+		}))
+		if refuse.Len() == 0 {
+			continue
+		}
+		n++
+		ok := f.Find(an.ReturnsBool(0, true))
+		if ok.Len() == 0 {
+			continue
+		}
+		f.NeverAfter(r, refuse, ok, "no success after a refusal was written")
+	}
+	r.AddSites(n)
+	r.Floor(1, "boolean helpers that write an error status")
+}
